@@ -31,4 +31,7 @@ GenSpec == GenInit /\ [][GenNext]_genvars
 CoverNext == Next /\ hist' = Append(hist, last') /\ UNCHANGED done
 CoverSpec == GenInit /\ [][CoverNext]_genvars
 DumpEvery == (nops > 0) => PrintT(ToJson(<<"BEH", hist>>))
+\* edge cover: evaluated for every generated transition (also those into known states): the
+\* representative path to the source state followed by this transition
+EdgeDump == PrintT(ToJson(<<"BEH", hist'>>))
 =============================================================================
